@@ -38,6 +38,10 @@ fn programs() -> Vec<Prog> {
         p("syntax-error", "{a: 1", vec![], "error \"syntax\""),
         p("static-error", "zz", vec![], "error \"static\""),
         p("function-value-inside", "[function(x) x]", vec![], "[function(x) x]"),
+        // every way a top-level field ends up visible or hidden
+        p("visibility-mix", "{a: 1, f::: 2, h:: 3} + {h: 4, g::: 5} + {f: 6, a:: 7} + {k: 8} + {k::: 9}", vec![], "{a: 1, f::: 2, h:: 3} + {h: 4, g::: 5} + {f: 6, a:: 7} + {k: 8} + {k::: 9}"),
+        p("visibility-mix-strings", "{a: \"s\", f::: \"t\\n\", h:: \"u\"} + {h: \"v\"} + {h::: super.h + \"w\"} + {[x]::: x for x in [\"p\", \"q\"]}", vec![], "{a: \"s\", f::: \"t\\n\", h:: \"u\"} + {h: \"v\"} + {h::: super.h + \"w\"} + {[x]::: x for x in [\"p\", \"q\"]}"),
+        p("inherited-and-computed-fields", "{[\"c\" + \"1\"]: [1], a: {b: 2}} + {a+: {c: 3}, d: self.a.b} + std.mapWithKey(function(k, v) v, {m: 1})", vec![], "{[\"c\" + \"1\"]: [1], a: {b: 2}} + {a+: {c: 3}, d: self.a.b} + std.mapWithKey(function(k, v) v, {m: 1})"),
     ]
 }
 
